@@ -87,6 +87,8 @@ InSeq(x, s) == \E i \in DOMAIN s : s[i] = x
 DepMh(mh, sibs) ==      \* the refinement a Dependent handler denotes, given the actual siblings
     CASE mh.fn = "IntRangeFrom" -> [k |-> "IntRange", lo |-> sibs[mh.deps[1]].iv, hi |-> mh.K]
       [] mh.fn = "IntRangeTo"   -> [k |-> "IntRange", lo |-> mh.K, hi |-> sibs[mh.deps[1]].iv]
+      [] mh.fn = "IntRangeWindow" -> [k |-> "IntRange", lo |-> sibs[mh.deps[2]].iv,
+                                      hi |-> sibs[mh.deps[2]].iv + sibs[mh.deps[1]].iv]   \* Dependent("scale,offset", ..)
       [] mh.fn = "ListSizeEq"   -> [k |-> "ListSize", lo |-> sibs[mh.deps[1]].iv, hi |-> sibs[mh.deps[1]].iv]
       [] OTHER -> [k |-> "none"]
 
